@@ -29,7 +29,7 @@ TRUSTED_BASE = [
     "Kani 0.68 / CBMC 6.11 / CaDiCaL; Kani's models of core/alloc intrinsics",
     "Verus 0.2026.09.13 / Z3 (vstd axioms)",
     "rustc front end shared by both verifiers",
-    "bitstream-io under the contract written out in harness/bits.rs (MSB-first concatenation, two's complement, unary, byte alignment)",
+    "bitstream-io under the contract written out in harness/bits.rs (MSB-first concatenation, two's complement, unary, byte alignment); the contract is cross-checked against the real BitReader / BitWriter for short scripts of every field kind the crate uses (K-dep_*: bounded), not proved in general",
     "std collections / iterator adapters / io::{BufReader,BufWriter,copy}, arrayvec, md5 (not verified)",
 ]
 
